@@ -6000,19 +6000,12 @@ impl<'a> Relative<'a> {
             }
         };
         let relspan = kind.into_relative_span(largest)?;
-        if span.get_sign_ranged() != C(0)
-            && relspan.span.get_sign_ranged() != C(0)
-            && span.get_sign_ranged() != relspan.span.get_sign_ranged()
-        {
-            // I haven't quite figured out when this case is hit. I think it's
-            // actually impossible right? Balancing a duration should not flip
-            // the sign.
-            //
-            // ref: https://github.com/fullcalendar/temporal-polyfill/blob/9e001042864394247181d1a5d591c18057ce32d2/packages/temporal-polyfill/src/internal/durationMath.ts#L236-L238
-            unreachable!(
-                "balanced span should have same sign as original span"
-            )
-        }
+        // Note that the balanced span can have the opposite sign of the
+        // original span. For example, when the relative datetime sits right
+        // after a gap longer than a civil day, subtracting a day lands in
+        // the gap and resolves to a *later* instant. Everything downstream
+        // works from the balanced span (and thus its sign), so there is
+        // nothing to do about it here.
         Ok(relspan)
     }
 
